@@ -152,7 +152,7 @@ def run(ctx, rep):
     po = b.origin(st_["args"][1])
     oks = oks and any(c[4] == cbb for c in origin_calls(po))
     rep.check("R20.1", "serve-front", oks, "the caller must be given min(remaining, buffered) bytes taken from the front of self.buf (count %s)" % fmt_origin(co), b.loc(ct["line"]))
-    rep.floor("R20.1", 10)
+    rep.floor("R20.1", 7)
     # R20.2
     before = len(rep.instances)
     c06.adaptors(ctx, rep)
